@@ -166,6 +166,11 @@ def c17_c(ctx: Ctx):
         elif len(conds) == 1 and (common.pmatch(f"os.path.realpath(os.path.join(prefix, P)) != {LK}[P]", conds[0]) is not None
                                   or common.pmatch(f"{LK}[P] != os.path.realpath(os.path.join(prefix, P))", conds[0]) is not None):
             out.append(ctx.ok(R, av, tu[0], "a kept link is re-pointed whenever its resolved target differs from the job directory"))
+        elif any(isinstance(x, ast.Call) and common.ext_name(ctx, av, x) in ("os.path.basename", "os.path.split") for cnd in conds for x in ast.walk(cnd)) \
+                or (any(isinstance(x, ast.Call) and common.ext_name(ctx, av, x) == "os.readlink" for cnd in conds for x in ast.walk(cnd))
+                    and not any(isinstance(x, ast.Call) and common.ext_name(ctx, av, x) in ("os.path.realpath", "os.path.abspath", "os.path.join") and "readlink" in canon(x) for cnd in conds for x in ast.walk(cnd))):
+            out.append(ctx.viol(R, av, tu[0], f"a kept link is judged by `{t[:80]}`, i.e. by a part of the link text (last component / unresolved relative target) instead of the resolved "
+                                "target: links that carry the right job id but point to another location (project moved, view re-used for a second project) are kept although they dangle"))
         else:
             out.append(ctx.inc(R, av, tu[0], "to_update condition not recognised: " + t[:80]))
     acfg = ctx.cfg(av)
